@@ -91,7 +91,7 @@ Inductive dev := DO (e : oev) | DI (it : item) | DS (id : N) (p : packet).
 (* ---- the reference machine of one operation ---- *)
 Inductive phase :=
 | GAbs | GNot | GCur (pid : N) (d : bool) | GPend (pid : N) | GInt (pid : N)
-| GRel (pid : N) | GRelInt (pid : N) | GRelCur (pid : N) | GGone.
+| GRel (pid : N) | GRelInt (pid : N) | GRelCur (pid : N) | GGone | GOther.
 Record gst := mkG { g_sp : bool; g_sub : packet; g_ph : phase }.
 
 (* a connection close (or a new connection): what was handed to the encoder / written is interrupted *)
@@ -125,6 +125,7 @@ Definition gnext (i : N) (g : gst) (e : dev) : gst :=
         match g_ph g, p with
         | GNot, Publish pb | GInt _, Publish pb => mkG (g_sp g) (g_sub g) (GCur (pub_pid pb) (pub_dup pb))
         | GRelInt pid, Pubrel _ => mkG (g_sp g) (g_sub g) (GRelCur pid)
+        | GAbs, _ => mkG (g_sp g) (g_sub g) GOther
         | _, _ => g
         end
       else g
@@ -159,7 +160,7 @@ Definition gok (i : N) (g : gst) (e : dev) : Prop :=
   | DO (OEncode id p _ true) =>
       id = i ->
       match g_ph g with
-      | GAbs => True
+      | GAbs | GOther => True
       | GNot => exists pb, p = Publish pb /\ pub_dup pb = false /\ 1 <= pub_pid pb <= 65535 /\ pub_qos pb <> 0 /\ norm p = g_sub g
       | GInt pid => exists pb, p = Publish pb /\ pub_dup pb = true /\ pub_pid pb = pid /\ pub_qos pb <> 0 /\ norm p = g_sub g /\
                                g_sp g = true
@@ -170,9 +171,11 @@ Definition gok (i : N) (g : gst) (e : dev) : Prop :=
   | DI it =>
       (* a PUBREC sets the PUBREL slot of i only while its PUBLISH is pending, and acknowledges the identifier it was published with *)
       match it_p it, it_rel it with
-      | Pubrec a, Some id => id = i -> match g_ph g with GPend pid | GRel pid => ack_pid a = pid | GAbs => True | _ => False end
+      | Pubrec a, Some id => id = i -> match g_ph g with GPend pid | GRel pid => ack_pid a = pid | _ => False end
       | _, _ => True
       end
+  (* an operation id is submitted before anything is handed to the encoder for it *)
+  | DS id _ => id = i -> g_ph g = GAbs
   | _ => True
   end.
 
@@ -217,7 +220,7 @@ Section J.
     | GRelInt pid => pub_dup pb = true /\ op_pubrel o = relof pid /\ noppub s /\ bnd o pb pid /\ parked s /\ dead_cur s /\
                      (s_st s = Connected -> g_sp g = true) /\ pub_qos pb = 2
     | GRelCur pid => s_cur s = Some i /\ pub_dup pb = true /\ op_pubrel o = relof pid /\ noppub s /\ bnd o pb pid /\ pub_qos pb = 2
-    | GGone => False
+    | GGone | GOther => False
     end.
 
   Definition JP (s : state) (g : gst) : Prop :=
@@ -228,13 +231,16 @@ Section J.
   Definition J (s : state) (g : gst) : Prop :=
     match g_ph g with
     | GAbs => forall o, getop s i = Some o -> pubq (op_packet o) = false
+    | GOther => i < s_next_id s /\ forall o, getop s i = Some o -> pubq (op_packet o) = false
     | _ => JP s g
     end.
 
   Lemma J_abs s g : g_ph g = GAbs -> J s g = (forall o, getop s i = Some o -> pubq (op_packet o) = false).
   Proof. unfold J. intros ->. reflexivity. Qed.
-  Lemma J_pub s g : g_ph g <> GAbs -> J s g = JP s g.
+  Lemma J_pub s g : g_ph g <> GAbs -> g_ph g <> GOther -> J s g = JP s g.
   Proof. unfold J. destruct (g_ph g); congruence. Qed.
+  Lemma J_lt s g : g_ph g <> GAbs -> J s g -> i < s_next_id s.
+  Proof. unfold J, JP. destruct (g_ph g); try congruence; intros _ [H _]; exact H. Qed.
 
   (* when the operation is gone nothing is claimed *)
   Lemma J_gone s g : (g_ph g <> GAbs -> i < s_next_id s) -> getop s i = None -> J s g.
@@ -282,6 +288,8 @@ Section J.
   Proof.
     intros [Q1 Q2 Q3 Q4] HJ. unfold J in *. destruct (g_ph g) eqn:Eph.
     { intros o' H'. destruct (Q1 _ H') as [(o & Ho & E)|[_ Hq]]; [|exact Hq]. unfold ocore in E. inversion E as [[E1 E2 E3]]. rewrite E1. eapply HJ; eauto. }
+    9:{ destruct HJ as [Hlt HJ]. split; [lia|]. intros o' H'. destruct (Q1 _ H') as [(o & Ho & E)|[Hn _]]; [|lia].
+        unfold ocore in E. inversion E as [[E1 E2 E3]]. rewrite E1. eapply HJ; eauto. }
     all: destruct HJ as [Hlt HJ]; (split; [lia|]); intros o' H'; destruct (Q1 _ H') as [(o & Ho & E)|[Hn _]]; [|lia];
       unfold ocore in E; inversion E as [[E1 E2 E3]]; destruct (HJ _ Ho) as (pb & Hp & Hq & Hs & HP);
       exists pb; (split; [congruence|]); (split; [exact Hq|]); (split; [exact Hs|]);
